@@ -15,6 +15,13 @@ The input types ARE the shape part of the property's domain ("dicts at top level
 values; list elements are scalars or lists"): a dict inside a list is not representable (the code
 raises `ValueError` there), floats are given by their Python `repr` text (finite floats only; the
 code raises `ValueError` on `inf`/`nan`).
+
+Refusal. `coerce_expression` raises `ValueError` for an int whose magnitude exceeds
+`_MAX_INTEGER_LITERAL`. Raw values are coerced when they are rendered, and a rebuild renders every
+part of the object (each list item in `render_item`, each binding value in `Binding.rebuild`, each
+binding of a set), so `rebuild()` raises exactly when the object holds such an int: `exprRefused`.
+The text functions below describe the rebuild of an object that holds none; `renderCtx` puts the
+two together (`Except`-valued).
 -/
 namespace Nima
 
@@ -65,6 +72,9 @@ def primitiveOrder : List String := ["bool", "None", "int", "str"]
 /-- `expression._float_literal`: `if "<1>" not in text:` / `text.partition("<2>")` / the text put
     between the mantissa and the exponent mark. -/
 def floatLiteralRule : Char × Char × Text := ('.', 'e', ['.', '0'])
+/-- `expression._MAX_INTEGER_LITERAL`: `coerce_expression` raises `ValueError` for an int with
+    `abs(value) >` this bound. -/
+def coerceIntMax : Nat := 9223372036854775807
 /-- `list._is_negative_number_literal`: the class tests and what each returns. -/
 def negLiteralTests : List (String × String) :=
   [("IntegerPrimitive", "value<0"), ("FloatExpression", "value.startswith:-")]
@@ -121,6 +131,32 @@ def hasInterp : Text → Bool
   | [] => false
   | '$' :: '{' :: _ => true
   | _ :: cs => hasInterp cs
+
+/-! ## Refusal -/
+
+/-- `coerce_expression(value)` for an int: `if abs(value) > _MAX_INTEGER_LITERAL: raise ValueError` -/
+def intRefused (i : Int) : Bool := i.natAbs > coerceIntMax
+
+mutual
+/-- some `coerce_expression` call of `coerce_expression(e).rebuild(…)` raises -/
+def elemRefused : Elem → Bool
+  | .int i => intRefused i
+  | .list xs => elemsRefused xs
+  | _ => false
+def elemsRefused : List Elem → Bool
+  | [] => false
+  | x :: xs => elemRefused x || elemsRefused xs
+end
+
+mutual
+/-- some `coerce_expression` call of `value.rebuild(…)` raises -/
+def exprRefused : Expr → Bool
+  | .raw e => elemRefused e
+  | .aset bs _ => bsRefused bs
+def bsRefused : List (Text × Expr) → Bool
+  | [] => false
+  | (_, v) :: rest => exprRefused v || bsRefused rest
+end
 
 /-! ## Rendering -/
 
@@ -291,13 +327,22 @@ inductive Ctx where
   | setItemOn (d : List (Text × PyVal)) (ml : Bool) (k : Text) (v : PyVal)
 deriving Repr, Inhabited
 
-/-- `.rebuild()` is `rebuild(indent=0, inline=False)`. -/
-def renderCtx : Ctx → Text
-  | .fromDict d => renderExpr (fromDict d) 0 false
-  | .values d => renderExpr (valuesCtor d) 0 false
+/-- What the context builds: the object whose `rebuild` is called (for a `Binding`, its value). -/
+def ctxExpr : Ctx → Expr
+  | .fromDict d => fromDict d
+  | .values d => valuesCtor d
+  | .binding _ v => bindValue v
+  | .list xs => .raw (.list xs)
+  | .setItem d k v => setItem (fromDict d) k v
+  | .setItemOn d ml k v => setItem (.aset (bindAll d) ml) k v
+
+/-- The text of `.rebuild()` (`rebuild(indent=0, inline=False)`) when no value is refused. -/
+def renderCtxText : Ctx → Text
   | .binding k v => renderBinding k (bindValue v) 0 false
-  | .list xs => renderElem (.list xs) 0 false
-  | .setItem d k v => renderExpr (setItem (fromDict d) k v) 0 false
-  | .setItemOn d ml k v => renderExpr (setItem (.aset (bindAll d) ml) k v) 0 false
+  | c => renderExpr (ctxExpr c) 0 false
+
+/-- `.rebuild()`: `ValueError` when the object holds an int `coerce_expression` refuses, else the text. -/
+def renderCtx (c : Ctx) : Except Err Text :=
+  if exprRefused (ctxExpr c) then .error .value else .ok (renderCtxText c)
 
 end Nima
